@@ -152,3 +152,18 @@ func twinReadProbe(x *explore.Ctx, why string) {
 		bad("B", 2, got, err, wantB[1])
 	}
 }
+
+// freshReadProbe: a failed connection must not poison anything shared (pooled decompressors): a
+// fresh, healthy connection created afterwards reads two compressed messages flawlessly.
+func freshReadProbe(x *explore.Ctx, key string) {
+	var wire []byte
+	want := [][]byte{twinB, twinA2}
+	for _, m := range want {
+		wire = append(wire, wsref.Encode(wsref.Frame{Fin: true, Rsv1: true, Opcode: wsref.OpText, Payload: wsref.Deflate(m, 6)})...)
+	}
+	c := websocket.VerifNewConn(netsim.NewConn(wire), false, 0, 0, nil, true)
+	for i, w := range want {
+		_, got, err := c.ReadMessage()
+		x.Check(err == nil && bytes.Equal(got, w), key, "a fresh connection created after another connection's transport fault: compressed message %d read as %q (%v), want %q", i+1, got, err, w)
+	}
+}
